@@ -215,16 +215,40 @@ fn compose_expr(rng: &mut Rng, depth: usize) -> String {
     }
 }
 
+/// the expression buried under 8..40 levels of parentheses, brackets and braces
+fn deep_wrap(rng: &mut Rng, inner: String) -> String {
+    let depth = rng.range(8, 40);
+    let mut s = inner;
+    for _ in 0..depth {
+        s = match rng.below(4) {
+            0 => format!("({})", s),
+            1 => format!("[{}][0]", s),
+            2 => format!("{{ {} }}", s),
+            _ => format!("f({}, 1)", s),
+        };
+    }
+    s
+}
+
 fn expr(rng: &mut Rng) -> String {
-    if rng.chance(1, 3) {
+    let e = if rng.chance(1, 3) {
         let d = rng.range(1, 3);
         compose_expr(rng, d)
     } else {
         rng.pick(&EXPR_POOL).to_string()
+    };
+    if rng.chance(1, 25) {
+        deep_wrap(rng, e)
+    } else {
+        e
     }
 }
 
 fn default_expr(rng: &mut Rng) -> String {
+    if rng.chance(1, 40) {
+        let inner = rng.pick(&["~.id", "@.name", "~", "@"]).to_string();
+        return format!("{{ {} }}", deep_wrap(rng, inner));
+    }
     if rng.chance(1, 4) {
         let d = rng.range(1, 2);
         format!("{{ {} }}", compose_expr(rng, d))
